@@ -6,6 +6,22 @@ HERE = os.path.dirname(os.path.dirname(os.path.abspath(__file__)))
 PROPS = [json.loads(l)['id'] for l in open(os.path.join(HERE, 'properties.jsonl'))]
 
 CHECKS = {
+ 'C03': dict(category='proof', design_ref='DESIGN.md section 4 (C03)',
+    text='Every section writer and reader (gfx, gff/map hex rows, sfx, music) is proved equal to the P8Spec text / bytes functions '
+         '(contracts shared with C16, re-discharged here), and on top of them spec-level lemmas are discharged by z3 for ALL region '
+         'contents: bytes_X(text_X(d)) == d for every section (music: except bit 7 of each pattern\'s 4th channel byte, as the statement '
+         'says), text(bytes(text(d))) == text(d) (the re-written file is identical), and every row of text_X(d) is an in-format row '
+         '(the precondition of the reader contracts). The framing is read off the real source on every run: on all control paths of '
+         'P8Formatter.to_file the chunks are written to outstr in the order header, version line, __lua__, code chunks through '
+         'p8scii_to_unicode + UTF-8, a newline exactly when the last chunk has none, __gfx__, optional __label__, blank, __gff__, '
+         '__map__, __sfx__, __music__, blank; the reader loop groups the lines after a __name__ line under that name (converted by '
+         'unicode_to_p8scii) and from_file hands each group to the section class of its name, label only if present, version from the '
+         'version line.',
+    note='P8SCII <-> Unicode is C15, the default Lua writer is C06 (Lua code is compared as the default writer emits it: quoted strings '
+         'may be re-spelled value-preservingly). The composition read(write(g)) == g is the conjunction of these obligations; the '
+         'whole-file composition through real file objects is additionally exercised by a bounded native run (never counted as '
+         'proved). Regions are assumed to have their PICO-8 sizes.',
+    technique='contract-based deductive verification (codec contracts vs an independent format spec + spec-level inverse lemmas, z3 LIA/BV) + framing obligations from enumerated control paths of the real writer/reader'),
  'C04': dict(category='proof', design_ref='DESIGN.md section 4 (C04)',
     text='The building blocks are under contract and discharged for all inputs: the per-pixel pack and unpack against PngSpec (the low '
          'two bits of A,R,G,B carry each memory byte, the upper six bits of every channel are the label\'s, pixels beyond the data are '
